@@ -54,7 +54,17 @@ fn gen_case(rng: &mut Rng) -> Case {
     }
     let mut sels: Vec<SelList> = vec![];
     let n = rng.range(1, 8);
-    for _ in 0..n {
+    // 1 run in 25: 60-110 registrations that match nothing, before and between the real ones, so
+    // that the matched-id sets of an element span several words and grow more than once
+    let many = rng.chance(1, 25);
+    for it in 0..n {
+        if many && (it == 0 || it == n / 2 || it == n - 1) {
+            for k in 0..rng.range(20, 37) {
+                let s = SelList(vec![select::Complex { first: select::Compound(vec![select::Simple::Class(format!("nomatch{it}x{k}"))]), rest: vec![] }]);
+                sc.handlers.push(HandlerSpec::Element { sel: s.css(), ops: vec![] });
+                sels.push(s);
+            }
+        }
         let mut pick_sel = |rng: &mut Rng, sels: &mut Vec<SelList>| -> String {
             let s = if rng.chance(1, 3) {
                 // simple, likely-to-match selectors
